@@ -6,6 +6,7 @@ import (
 	"strings"
 
 	"github.com/tikv/client-go/v2/internal/latch"
+	"github.com/tikv/client-go/v2/oracle"
 	"github.com/tikv/client-go/v2/verifsim/simkit"
 )
 
@@ -141,10 +142,12 @@ type monitor struct {
 	lastRel     int    // step of the latest release of any key
 	// implementation's per-key memory after the previous step, and the keys whose node vanished
 	// (the list recycling forgot them)
-	prevMax   map[string]uint64
-	dropped   map[string]int
-	bound     int
-	maxReturn int // greatest number of steps between (call or last release) and the return of a Lock
+	prevMax map[string]uint64
+	dropped map[string]int
+	// droppedYoung: keys whose record was dropped although no transaction of the scenario is two minutes younger
+	droppedYoung map[string]bool
+	bound        int
+	maxReturn    int // greatest number of steps between (call or last release) and the return of a Lock
 
 	viol  map[string]simkit.Violation
 	vord  []string
@@ -326,6 +329,22 @@ func (m *monitor) observe(si *stepInfo, s *snap, ctx func() string) {
 			if _, ok := m.dropped[k]; !ok {
 				m.dropped[k] = si.step
 				m.stats["probe.node-forgotten"]++
+				// The recycling drops a node only when the REQUESTER that runs it started at least two minutes (of
+				// physical TSO time) after the node's max commit ts. If no transaction of the scenario is that much
+				// younger than the forgotten commit, the node was not recycled for age: not finding F28.
+				aged := false
+				for _, t := range m.txns {
+					if t.Start > old && oracle.ExtractPhysical(t.Start)-oracle.ExtractPhysical(old) >= 2*60*1000 {
+						aged = true
+					}
+				}
+				if !aged {
+					if m.droppedYoung == nil {
+						m.droppedYoung = map[string]bool{}
+					}
+					m.droppedYoung[k] = true
+					m.stats["probe.node-forgotten-unexpired"]++
+				}
 			}
 		}
 	}
@@ -370,6 +389,9 @@ func (m *monitor) observe(si *stepInfo, s *snap, ctx func() string) {
 				if m.maxRel[k] > m.txns[i].Start {
 					if st, ok := m.dropped[k]; ok {
 						sig = "stale-missed after-node-recycled"
+						if m.droppedYoung[k] {
+							sig = "stale-missed after-node-dropped-unexpired"
+						}
 						why += fmt.Sprintf("; the implementation dropped its record of key %q (max commit ts) in step %d", k, st)
 					}
 				}
